@@ -315,6 +315,7 @@ def run_property(mod, prop, tier, seed, build, t0, skip_d=False, skip_b=False, o
     solver_s = round(sum(c["seconds"] for c in clauses), 2)
     expected = load_expected(prop)
     failed_clauses = []
+    canary_issues = []
     for r in d_results:
         if r.get("error"):
             machinery.append("vcgen crashed on %s: %s" % (r["module"], r["error"][-400:]))
@@ -322,11 +323,12 @@ def run_property(mod, prop, tier, seed, build, t0, skip_d=False, skip_b=False, o
             undecided.append("target=%s (%s)" % (fn, why))
         for cn in r.get("canaries", []):
             if not cn["ok"]:
-                machinery.append("canary verified (encoder or contract file unsound?): %s %s" % (cn["name"], cn.get("why", "")))
+                canary_issues.append("canary verified (encoder or contract file unsound?): %s %s" % (cn["name"], cn.get("why", "")))
         for f in r.get("functions", []):
             if f.get("status") == "generated" and not f.get("requires_satisfiable", True):
                 machinery.append("vacuous contract: requires of %s unsatisfiable" % f["function"])
     exp_names = set(expected["discharged"]) if expected else None
+    canary_pending = canary_issues
     seen = set()
     for c in clauses:
         seen.add(c["name"])
@@ -343,6 +345,10 @@ def run_property(mod, prop, tier, seed, build, t0, skip_d=False, skip_b=False, o
     if exp_names is not None and not skip_d:
         for n in sorted(exp_names - seen):
             undecided.append("obligation=%s (expected but not generated on this tree)" % n)
+    # a deliberately wrong contract variant that verifies means the encoder (or the contract file) proves too much -- unless the real
+    # contract of this tree is refuted at the same time (the changed code may simply implement the wrong variant)
+    if canary_pending and not failed_clauses:
+        machinery += canary_pending
     if getattr(mod, "D_MODULES", []) and not skip_d and n_ob == 0:
         machinery.append("zero obligations generated for %s" % prop)
 
